@@ -565,6 +565,9 @@ def write_replay(mod, case, msg, tier, seed):
 
 def write_evidence(mod, tier, seed, tot, wall, violations, extra_cov=None):
     d = os.path.join(VERIF_DIR, "evidence")
+    if REPO != "/repo":
+        # a scratch copy (tools/seeded.py, tools/mutate.py): the committed evidence describes /repo only
+        d = os.path.join(os.environ.get("VF_TMPROOT") or tempfile.gettempdir(), "evidence")
     os.makedirs(d, exist_ok=True)
     cov = {
         "evaluations": tot.evaluations,
